@@ -365,15 +365,19 @@ func (e *Ev) callStatic(fn *types.Func, recv *Term, args []Term, n *ast.CallExpr
 		}
 	}
 	// panics
+	var modItems []string
+	for _, c := range b.clauses("modifies") {
+		modItems = append(modItems, splitTopSpaces(c.Text)...)
+	}
 	if cs := b.clauses("panics_iff"); len(cs) > 0 {
 		ce := mk(pre, pre)
 		t := ce.evSpec(cs[0].Text)
-		e.panicIf(t.S, "callee "+key+" panics", n)
+		e.calleePanic(t.S, "callee "+key+" panics", n, modItems, mk(pre, pre))
 	} else if _, ok := b.flag("nopanic"); !ok {
 		if !e.spec && !e.quiet {
 			pv := e.g().freshName("panics$" + sanitize(key))
 			e.st.declare(pv, sBool)
-			e.panicIf(pv, "callee "+key+" may panic", n)
+			e.calleePanic(pv, "callee "+key+" may panic", n, modItems, mk(pre, pre))
 		}
 	}
 	// results
@@ -731,7 +735,10 @@ func (e *Ev) builtin(name string, n *ast.CallExpr) Term {
 		e.mapDelete(m, mt, k)
 		return Term{Sort: "void"}
 	case "recover":
-		return Term{S: "(mkObj 0 0 str_empty)", Sort: sObj}
+		if r, ok := e.st.named["$recovered"]; ok {
+			return r
+		}
+		return Term{S: "(mkObj 0 0 str_empty)", Sort: sObj, T: types.Universe.Lookup("any").Type()}
 	case "min", "max":
 		a := e.ev(n.Args[0])
 		b := e.ev(n.Args[1])
@@ -1065,4 +1072,24 @@ func (e *Ev) allocHeap(item string, bv bool) (string, string) {
 	}
 	s := e.g().sortOf(tn.Type(), bv)
 	return "H$" + sanitize(s), fmt.Sprintf("(Array Int %s)", s)
+}
+
+// calleePanic records a panic raised inside a callee. On a path protected by a recover handler
+// the handler will run in the state the callee left behind: what the callee may modify is havoced
+// in that state (nothing is known about a callee's intermediate states).
+func (e *Ev) calleePanic(cond, why string, n ast.Node, modItems []string, ce *Ev) {
+	if e.spec || e.quiet || cond == "false" {
+		return
+	}
+	if _, prot := e.st.named["$protected"]; prot && !e.u.inHandler && len(modItems) > 0 {
+		ps := e.st.clone()
+		pe := &Ev{u: e.u, st: ps, old: e.old, bv: e.bv, bound: map[string]Term{}, guard: append([]string(nil), e.guard...)}
+		for _, h := range modItems {
+			pe.havocItem(h, ce)
+		}
+		e.u.panicExit(ps, smtAnd(e.guardCond(), cond), why, n)
+		e.st.branch(smtImp(e.guardCond(), smtNot(cond)))
+		return
+	}
+	e.panicIf(cond, why, n)
 }
